@@ -14,6 +14,7 @@ import warnings
 import numpy as np
 
 from ..cert import DM, chol_factor, frac_json, repair_povm
+from ..exact import Pure, call_rng, describe, present_list, vary_ensemble
 from ..pool import Result, TaskTimeout, run_pool, worker_driver
 from .. import qgen
 
@@ -22,7 +23,11 @@ RULE = ("ensembles (2..5 states, dimension 2..4, real/complex integer amplitudes
         "mixed, plus the named families trine, BB84 subsets, Bell, PBR(n=1,2) at, above and below the threshold angle (optionally rotated by an exact "
         "rational unitary) x strategy x primal/dual form x solver; per instance the Lean checker certifies [lo, hi] for the exact image of the inputs; "
         "non-trivial = certified interval of width <= 1e-4 with 1e-2 <= lo and hi <= min prior - 1e-2, or a member of a named family whose certified "
-        "interval confirms its known antidistinguishability status (hi <= 1e-7 resp. lo > 1e-3); distinct = hash of the instance and call form")
+        "interval confirms its known antidistinguishability status (hi <= 1e-7 resp. lo > 1e-3); distinct = hash of the instance and call form; "
+        "presentation: every call receives the same values in a freshly drawn presentation per list element (C / Fortran / strided memory layout; real-valued "
+        "states as float64, integer-valued ones as int64), one in three complex ensembles of the kinds random / near / mixed has some states made real-valued "
+        "(real-dtype first element followed by complex ones, or the reverse; also computational basis vectors); the caller's list, arrays and priors must be "
+        "untouched by every call and a repeated call on the same objects (one in four min-error calls) must return the same value")
 ASSUMPTIONS = [
     "toqito computes with the float inputs it is given; the instance certified is their exact dyadic image (difference <= 1e-15 relative); a state vector v denotes the exact operator v v^H",
     "tolerance 2e-5 on CVXOPT-solved values (declared in DESIGN.md 4.4), 1e-3 for other solvers; 1e-4 on the POVM residuals of returned operators",
@@ -281,6 +286,7 @@ def _meas_values(meas):
 def _base(inst):
     b = {kk: inst[kk] for kk in ("d", "k", "cplx", "form", "kind", "probs", "family")}
     b["states"] = [np.asarray(s) for s in inst["states"]]
+    b["pres"], b["real_idx"] = inst.get("pres"), list(inst.get("real_idx", ()))
     return b
 
 
@@ -327,7 +333,11 @@ def work(task, res: Result):
         desc = dict(base, strategy=strategy, primal_dual=pd, solver=solver, probs_given=inst["probs_given"])
         if kw:
             desc["kwargs"] = kw
-        args = dict(vectors=[np.asarray(s) for s in states], probs=(list(probs) if inst["probs_given"] else None), strategy=strategy, solver=solver, primal_dual=pd, **kw)
+        # the same values in a presentation drawn for this call (layout / real and integer dtypes, independently per list element)
+        prng = call_rng(inst.get("pres"), strategy, pd, solver, bool(kw))
+        args = dict(vectors=present_list(prng, states, force_real=inst.get("real_idx", ())), probs=(list(probs) if inst["probs_given"] else None),
+                    strategy=strategy, solver=solver, primal_dual=pd, **kw)
+        guard = Pure(**args)
         cfg = solver + ("+relaxed-tol" if kw else "")
 
         def numfail():
@@ -340,6 +350,14 @@ def work(task, res: Result):
 
         try:
             val, meas = _limited(state_exclusion, **args)
+            why_mod = guard.modified()
+            val2 = None
+            if why_mod is None and strategy == "min_error" and prng is not None and int(prng.integers(4)) == 0:
+                try:
+                    val2 = float(np.real(_limited(state_exclusion, **args)[0]))   # the SAME objects again
+                    why_mod = guard.modified()
+                except (ArithmeticError, ZeroDivisionError, CallTimeout):
+                    res.count("repeat-call/solver-numerical-failure-or-timeout")
         except CallTimeout:
             # the solver did not finish within the CPU-time limit: runtime behaviour, counted in the evidence, no verdict
             res.case(desc, False, f"{strategy}/{pd}/{cfg}/solver-timeout")
@@ -359,10 +377,19 @@ def work(task, res: Result):
                 continue
             res.case(desc, True, f"{strategy}/{pd}/{solver}/raise")
             res.violation(f"state_exclusion({strategy},{pd}) raises {type(e).__name__}: {str(e)[:120]} on a valid {'complex' if inst['cplx'] else 'real'} ensemble",
-                          {"function": "state_exclusion", "args": desc, "exception": f"{type(e).__name__}: {str(e)[:300]}", "cplx": inst["cplx"]})
+                          {"function": "state_exclusion", "args": desc, "exception": f"{type(e).__name__}: {str(e)[:300]}", "cplx": inst["cplx"],
+                           "presentation": describe(args["vectors"])})
             continue
         tau = TAU.get(solver, TAU_OTHER)
         val = float(np.real(val))
+        if why_mod is not None:
+            res.violation(f"state_exclusion({strategy},{pd}): caller's arguments were modified ({why_mod})",
+                          {"function": "state_exclusion", "args": desc, "modified": why_mod, "presentation": describe(args["vectors"]), "cplx": inst["cplx"], "check": "purity"})
+        elif val2 is not None:
+            res.count("repeat-call/checked")
+            if abs(val2 - val) > 2 * tau:
+                res.violation(f"state_exclusion({strategy},{pd}): a second call on the same objects returns {val2:.8f}, the first returned {val:.8f}",
+                              {"function": "state_exclusion", "args": desc, "values": [val, val2], "presentation": describe(args["vectors"]), "cplx": inst["cplx"], "check": "repeat"})
         tag = f"{strategy}/{pd}/{cfg}/{inst['form']}/{'c' if inst['cplx'] else 'r'}/{inst['kind']}"
         if strategy == "unambiguous":
             unamb.setdefault((pd, solver), (val, desc))
@@ -375,7 +402,8 @@ def work(task, res: Result):
         if not (lo - tau <= val <= hi + tau):
             res.violation(f"state_exclusion(min_error,{pd},{solver}) = {val:.8f} outside the certified optimum [{lo:.8f}, {hi:.8f}]",
                           {"function": "state_exclusion", "args": desc, "impl": val, "certified": [lo, hi], "tau": tau,
-                           "theorem": "checkExclPrimal_sound / checkExclDual_sound / excl_nonneg", "cplx": inst["cplx"], "check": "value"})
+                           "theorem": "checkExclPrimal_sound / checkExclDual_sound / excl_nonneg", "cplx": inst["cplx"], "check": "value",
+                           "presentation": describe(args["vectors"])})
             continue
         # returned measurement: a valid POVM attaining the reported value
         try:
@@ -456,11 +484,15 @@ def work_anti(task, res: Result):
     certified = lo is not None and hi is not None and hi - lo <= WIDTH_OK
     if not certified:
         res.count("uncertified/anti:" + ";".join(why)[:60])
-    vecs = [np.asarray(s) for s in states]
     for fn_name, fn in (("is_antidistinguishable", is_antidistinguishable), ("common_quantum_overlap", common_quantum_overlap)):
         desc = dict(base, fn=fn_name)
+        vecs = present_list(call_rng(inst.get("pres"), fn_name), states, force_real=inst.get("real_idx", ()))
+        guard = Pure(vecs)
         try:
             out = _limited(fn, vecs)
+            if guard.modified() is not None:
+                res.violation(f"{fn_name}: caller's arguments were modified ({guard.modified()})",
+                              {"function": fn_name, "args": desc, "modified": guard.modified(), "presentation": describe(vecs), "cplx": inst["cplx"], "check": "purity"})
         except CallTimeout:
             res.case(desc, False, f"{fn_name}/solver-timeout")
             continue
@@ -472,7 +504,7 @@ def work_anti(task, res: Result):
         except Exception as e:
             res.case(desc, True, f"{fn_name}/raise")
             res.violation(f"{fn_name} raises {type(e).__name__}: {str(e)[:120]} on a valid ensemble",
-                          {"function": fn_name, "args": desc, "exception": f"{type(e).__name__}: {str(e)[:300]}", "cplx": inst["cplx"]})
+                          {"function": fn_name, "args": desc, "exception": f"{type(e).__name__}: {str(e)[:300]}", "cplx": inst["cplx"], "presentation": describe(vecs)})
             continue
         if not certified:
             res.case(desc, False, f"{fn_name}/uncertified")
@@ -517,16 +549,20 @@ def work_invariance(task, res: Result):
             return U @ a
         return U @ a @ U.conj().T
 
+    ri = list(inst.get("real_idx", ()))
+    a0 = present_list(call_rng(inst.get("pres"), "inv0"), vecs, force_real=ri)
+    a2 = present_list(call_rng(inst.get("pres"), "inv2"), [vecs[i] for i in perm], force_real=[n for n, i in enumerate(perm) if i in ri])
     try:
-        v0, _ = _limited(state_exclusion, vecs, probs)
-        v1, _ = _limited(state_exclusion, [rot(s) for s in vecs], probs)
-        v2, _ = _limited(state_exclusion, [vecs[i] for i in perm], [probs[i] for i in perm])
+        v0, _ = _limited(state_exclusion, a0, probs)
+        v1, _ = _limited(state_exclusion, present_list(call_rng(inst.get("pres"), "inv1"), [rot(s) for s in vecs]), probs)
+        v2, _ = _limited(state_exclusion, a2, [probs[i] for i in perm])
     except TaskTimeout:
         raise
     except (Exception, CallTimeout):
         res.case({"fn": "invariance", "k": inst["k"], "d": inst["d"]}, False, "invariance/raise")
         return
-    desc = {"fn": "invariance", "d": inst["d"], "k": inst["k"], "cplx": inst["cplx"], "form": inst["form"], "perm": perm, "states": vecs, "probs": probs, "U": U}
+    desc = {"fn": "invariance", "d": inst["d"], "k": inst["k"], "cplx": inst["cplx"], "form": inst["form"], "perm": perm, "states": vecs, "probs": probs, "U": U,
+            "pres": inst.get("pres"), "real_idx": ri}
     res.case(desc, min(v0, v1) > 1e-2, "invariance")
     if abs(v0 - v1) > 4e-5 or abs(v0 - v2) > 4e-5:
         res.violation(f"min-error exclusion value not invariant: base {v0:.8f}, common unitary {v1:.8f}, relabelled {v2:.8f}",
@@ -576,6 +612,9 @@ def run(ctx, model_ok=True):
     fam = family_instances(rng, 1 if quick else 6)
     n_inst = 100 if quick else 1200
     insts = [gen_instance(rng) for _ in range(n_inst)]
+    prs = rng.spawn(1)[0]   # presentation stream: a child of the seeded generator (spawning does not consume the parent's draws)
+    for inst in fam + insts:
+        vary_ensemble(prs, inst)   # families have kind "family": presentation seed only, values untouched
     # the unambiguous pair (slow and often numerically failing in CVXOPT) runs on every second random instance in the quick tier
     tasks = [(inst, [c for c in calls if c[0] == "min_error"]) for inst in fam] + [(inst, calls if (not quick or i % 2 == 0) else [c for c in calls if c[0] == "min_error"]) for i, inst in enumerate(insts)]
     run_pool(ctx, work, tasks)
@@ -583,7 +622,7 @@ def run(ctx, model_ok=True):
     run_pool(ctx, work_anti, anti_tasks)
     inv = []
     for i in range(24 if quick else 160):
-        inst = gen_instance(rng)
+        inst = vary_ensemble(prs, gen_instance(rng))
         U = qgen.cayley_unitary(rng, inst["d"], inst["cplx"])
         if not inst["cplx"]:
             U = np.real(U)
@@ -602,7 +641,8 @@ def replay(ctx, rec):
         return np.array([[el(e) for e in row] if isinstance(row, list) else el(row) for row in s])
 
     inst = {"d": a["d"], "k": a["k"], "cplx": a["cplx"], "form": a["form"], "kind": a.get("kind", "random"), "probs": a["probs"],
-            "probs_given": a.get("probs_given", True), "family": a.get("family"), "anti": None, "states": [arr(s) for s in a["states"]]}
+            "probs_given": a.get("probs_given", True), "family": a.get("family"), "anti": None, "states": [arr(s) for s in a["states"]],
+            "pres": a.get("pres"), "real_idx": a.get("real_idx") or []}
     res = Result()
     fn = rec.get("function")
     if fn in ("is_antidistinguishable", "common_quantum_overlap") or a.get("fn") in ("is_antidistinguishable", "common_quantum_overlap"):
